@@ -1,73 +1,70 @@
 (* C01 — battery power distribution conserves the requested power.
    Statements only; every proof is `exact <lemma>` from proofs/Dist*.v.
-   Model: model/Dist.v (the code AFTER the fix commits c773a4e, ccb79d8, fcfd05e; on the unchanged tree
-   C01_sum was refuted by the corpus witnesses corpus/C01/exact_fixed_F1_F2.json).
+   Model: model/Dist.v = the code AFTER the fix commits c773a4e, ccb79d8, fcfd05e, 5d1dfb7 (on the unchanged tree
+   C01_sum was refuted by the witnesses kept in corpus/C01/exact_fixed_F1_F2.json).
 
-   [distribute powf gs p]   = BatteryDistributionAlgorithm.distribute_power(p, gs), powf = pow(., exponent)
-   [wf_groups gs]           = the property's data domain (per component il <= el <= 0 <= eu <= iu, capacity > 0,
-                              group minimum power <= group inclusion bound in both directions)
-   [czero p = false]        = the request is non-zero for the code (|p| > 1e-9 W)
-   [side_ok powf gs p]      = two conditions on the run, decidable by evaluation (lower_okb) and required by the
-                              generated case files on every in-domain case:
-                                (i) no excess entry is negative after the deficit covering
-                                    (math.isclose may cover a deficit that exceeds the donor's excess by <= 1e-9 relative);
-                               (ii) the left-over handed to the greedy top-up is non-negative
-                                    (request - assigned >= 0).
-                              Derived inside Coq only for deficit-free runs (C01_side_ok_when_no_deficit); NOT derived
-                              from `admitted gs p` in general -- hence the `_partial` names.  Missing: with deficits,
-                              "an uncovered deficit implies every excess <= 1e-9" gives request - assigned >= -n*1e-9 only,
-                              so the general statement needs tolerance-slack versions of the lower-bound lemmas. *)
+   [distribute powf gs p]  = BatteryDistributionAlgorithm.distribute_power(p, gs); powf = pow(., exponent)
+   [wf_groups gs]          = the property's data domain: per component il <= el <= 0 <= eu <= iu, capacity > 0,
+                             at least one battery per group, group minimum power <= group inclusion bound (both directions)
+   [admitted gs p]         = czero p = false (|p| > 1e-9 W, the code's own zero test) and p outside the exclusion zone
+                             the pool advertises (per group max(battery excl, sum of inverter excl), summed)
+   [remainder_slack]       = n * eps + 2 * rel_tol * (pool inclusion bound in the request's direction), n = number of
+                             groups, eps = is_close_to_zero's abs_tol (translated from /repo), rel_tol = math.isclose's 1e-9.
+                             The code's own tolerances force it: an uncovered deficit leaves every excess <= eps, not 0,
+                             and math.isclose may cover a deficit that exceeds the donor's excess by 1e-9 relative. *)
 From Coq Require Import QArith List.
-From Verif Require Import model.Dist proofs.DistFacts proofs.DistBounds proofs.DistTop proofs.DistShares proofs.DistWitness.
+From Verif Require Import model.Dist proofs.DistFacts proofs.DistBounds proofs.DistTop proofs.DistRemainder proofs.DistWitness.
 Import ListNotations.
 Open Scope Q_scope.
 
-(* set-points + remainder == request, exactly, for EVERY data set (well-formed or not), every pow function *)
+(* set-points + remainder == request, exactly, for EVERY data set (well-formed or not) and every pow function *)
 Theorem C01_sum : forall powf gs p r,
   czero p = false -> distribute powf gs p = Some r -> sumsp (res_dist r) + res_rem r == p.
 Proof. exact distribute_sum. Qed.
 
-(* the power reported as set by BatteryManager (request - remainder) is the power commanded *)
+(* the power BatteryManager reports as set (request - remainder) is the power commanded *)
 Theorem C01_reported_is_commanded : forall powf gs p rr,
   czero p = false -> run_request powf gs p = Some rr -> res_distributed rr == sumsp (res_dist (rr_res rr)).
 Proof. exact request_reported. Qed.
 
-(* every set-point has the request's sign or is zero *)
-Theorem C01_sign_partial : forall powf gs p r,
-  wf_groups gs -> czero p = false -> side_ok powf gs p -> distribute powf gs p = Some r ->
+(* every set-point has the request's sign or is zero: exact, no condition on the run or on admission *)
+Theorem C01_sign : forall powf gs p r,
+  wf_groups gs -> czero p = false -> distribute powf gs p = Some r ->
   forall a, In a (res_dist r) -> (0 < p -> 0 <= snd a) /\ (p < 0 -> snd a <= 0).
 Proof. exact distribute_sign. Qed.
 
-(* the remainder has the request's sign and never exceeds it in magnitude *)
-Theorem C01_remainder_partial : forall powf gs p r,
-  wf_groups gs -> czero p = false -> side_ok powf gs p -> distribute powf gs p = Some r ->
-  (0 < p -> 0 <= res_rem r <= p) /\ (p < 0 -> p <= res_rem r <= 0).
+(* the remainder never exceeds the request in magnitude (exact) and has the request's sign up to the explicit
+   tolerance slack, for every admitted request, with or without deficits, every pow non-negative on non-negatives *)
+Theorem C01_remainder : forall powf gs p r,
+  wf_groups gs -> (forall x, 0 <= x -> 0 <= powf x) -> admitted gs p -> distribute powf gs p = Some r ->
+  (0 < p -> - remainder_slack powf gs p <= res_rem r <= p) /\
+  (p < 0 -> p <= res_rem r <= remainder_slack powf gs p).
 Proof. exact distribute_remainder. Qed.
 
-(* side_ok holds whenever no battery group's proportional share falls below its minimum power (no deficit entry
-   after the reservation loop), for every pow function that is non-negative on non-negative arguments:
-   the proportional shares never add up to more than the request *)
-Theorem C01_side_ok_when_no_deficit : forall powf gs p,
-  wf_groups gs -> (forall x, 0 <= x -> 0 <= powf x) -> deficit_free powf gs p -> side_ok powf gs p.
-Proof. exact deficit_free_side_ok. Qed.
+Theorem C01_remainder_slack_formula : forall powf gs p,
+  remainder_slack powf gs p =
+  inject_Z (Z.of_nat (length (pgs_of powf gs p))) * eps + 2 * rel_tol * qsum (map incl_bound (pgs_of powf gs p)).
+Proof. exact remainder_slack_formula. Qed.
 
-(* the side conditions can be discharged by evaluation for any concrete input *)
-Theorem C01_side_conditions_decidable : forall gs p, lower_okb gs p = true -> lower_ok gs p.
-Proof. exact lower_okb_ok. Qed.
+(* the step behind the slack: the power left for the greedy top-up is at least -n*eps *)
+Theorem C01_left_over_bound : forall gs p,
+  wf_pgs gs -> (forall g, In g gs -> ratio_ok g) -> adm_core gs p -> 0 <= p ->
+  - (inject_Z (Z.of_nat (length gs)) * eps) <= left_over gs p.
+Proof. exact left_over_ge. Qed.
 
-(* non-vacuity: a well-formed two-group pool, admitted requests in both directions, side conditions hold,
-   all of the request is distributed *)
+(* non-vacuity: a well-formed two-group pool, admitted requests in both directions, everything distributed,
+   slack below a microwatt *)
 Example C01_nonvacuous :
   wf_groups ex_gs /\ (admitted ex_gs 120 /\ admitted ex_gs (-120)) /\
-  (side_ok idf ex_gs 120 /\ side_ok idf ex_gs (-120)) /\
+  (remainder_slack idf ex_gs 120 < 1 # 1000000 /\ remainder_slack idf ex_gs (-120) < 1 # 1000000) /\
   (exists r, distribute idf ex_gs 120 = Some r /\ sumsp (res_dist r) == 120 /\ res_rem r == 0) /\
   (exists r, distribute idf ex_gs (-120) = Some r /\ sumsp (res_dist r) == -120 /\ res_rem r == 0).
-Proof. exact (conj ex_wf (conj ex_admitted (conj ex_side_ok ex_runs))). Qed.
+Proof. exact (conj ex_wf (conj ex_admitted (conj ex_slack_small ex_runs))). Qed.
 
 Print Assumptions C01_sum.
 Print Assumptions C01_reported_is_commanded.
-Print Assumptions C01_sign_partial.
-Print Assumptions C01_remainder_partial.
-Print Assumptions C01_side_ok_when_no_deficit.
-Print Assumptions C01_side_conditions_decidable.
+Print Assumptions C01_sign.
+Print Assumptions C01_remainder.
+Print Assumptions C01_remainder_slack_formula.
+Print Assumptions C01_left_over_bound.
 Print Assumptions C01_nonvacuous.
